@@ -27,7 +27,7 @@ m = {
     "setup_cmd": "./bin/setup",
     "hooks": {
         "guard": "verif",
-        "enable": "no hook is committed to /repo: each check runs tools/vinst over the current /repo working tree (AST rewrites into a scratch directory: yield points, mutex/select/timer/map-range seams, dial hook) and builds the harness with `go1.26.8 test -c -tags verif -overlay <scratch>/overlay.json`; all injected files carry //go:build verif",
+        "enable": "no hook is committed to /repo: each check runs tools/vinst over the current /repo working tree (AST rewrites into a scratch directory: yield points, mutex/select/timer/map-range seams, dial / prologue / result hooks) and builds the harness with `go1.26.8 test -c -tags verif -overlay <scratch>/overlay.json`; all injected files carry //go:build verif",
         "baseline_off_cmd": "cd /repo && TZ=Asia/Shanghai GOFLAGS=-mod=mod GOPROXY=off GOSUMDB=off go test -vet=off -count=1 -timeout 25m ./...",
         "source_commits": [],
         "add_only": True,
